@@ -341,9 +341,23 @@ def key_cmp_tuple(path):
 # Real-implementation side
 # ------------------------------------------------------------------------------------------
 
+def literal(x, ext):
+  """`{'from_ext': path}` (the node at that path of the second tree, handed in as it is) -> a copy of that
+  sub-tree: what the receiving container ends up holding."""
+  if isinstance(x, dict) and 'from_ext' in x:
+    return json.loads(json.dumps(get_at(ext, x['from_ext'])))
+  if isinstance(x, list):
+    return [literal(y, ext) for y in x]
+  if isinstance(x, dict):
+    return {k: literal(v, ext) for k, v in x.items()}
+  return x
+
+
 def build(t):
   import pyglove as pg
   cls = classes()
+  if isinstance(t, dict) and 'from_ext' in t:
+    return navigate(_EXT[0], t['from_ext'])      # a node that BELONGS TO THE OTHER TREE, handed in as it is
   if not is_node(t):
     if isinstance(t, dict) and t.get('missing'):
       return pg.MISSING_VALUE
@@ -1008,6 +1022,13 @@ class C09(Prop):
           'schema-bound Dict or an object, by assignment or one-pair rebind from the owner or an ancestor, followed by '
           'mutations inside the value that stayed in place (events at every subscribing ancestor, memo freshness) and '
           'accepted replacements. '
+          '300 histories in which EVERY handler reads derived facts (sym_nondefault, sym_missing, is_partial, '
+          'sym_puresymbolic) of the written node and all its ancestors during the dispatch, under notified batched '
+          'rebinds that delete List items and write inside a later item of the same list; 300 histories in which a node '
+          'that belongs to the second tree is written into a List / Dict / object field (append, insert, extend, item / '
+          'slice assignment, rebind, update). In ALL streams the handlers check the payload by IDENTITY: new_value is an '
+          'object the written container holds (never a plain dict / list, never a node living elsewhere), a symbolic '
+          'old_value is an object that was in the tree before the call. '
           'Object classes form the hierarchy Plain -> Mid -> Sub (only Sub overrides _on_change) and are created '
           'afresh for every case. A second, oracle-only stream inserts partial objects, pure-symbolic and non-deterministic values. '
           'Non-trivial: some node on the path from the root to a written location subscribes; distinct by JSON.')
@@ -1036,6 +1057,10 @@ class C09(Prop):
       'pg.Ref items and their ancestors are Dicts / Lists (observation F380: the flattened sym_nondefault() of an '
       'OBJECT with a Dict-valued field walks through the references); "fresh computation" for a tree holding pg.Ref '
       'items is a deep clone (JSON cannot carry them)',
+      'handlers that read derived facts during dispatch exist on the implementation side only: the model has no '
+      'reads inside a dispatch (by C09_fresh its reported values do not depend on which memos are filled); the '
+      'identity of payload objects is checked by the harness handlers (FieldUpdate.target / sym_values), the model '
+      'carries values, not identities',
       'position-shifting list calls: the contract is read on the edit (removed item -> MISSING at its former position, '
       'MISSING -> inserted item at its new position, old -> new for replaced items)',
   ]
@@ -1066,6 +1091,8 @@ class C09(Prop):
     for c in self.rejected_write_cases(rng, 400 if tier == 'quick' else 8000):
       yield c
     for c in self.reading_handler_cases(rng, 300 if tier == 'quick' else 6000):
+      yield c
+    for c in self.foreign_value_cases(rng, 300 if tier == 'quick' else 6000):
       yield c
 
   def read_cases(self, rng, n):
@@ -1674,11 +1701,56 @@ class C09(Prop):
         made += 1
         yield {'tree': t, 'steps': steps, 'readers': True}
 
+  def foreign_value_cases(self, rng, n):
+    """A node that BELONGS TO ANOTHER TREE is written into a List / Dict / object field (append, insert,
+    extend, item assignment, slice assignment, rebind, update), next to plain dicts / lists: the container
+    stores a copy, and the events carry that stored copy (identity), never the node of the other tree."""
+    g = Gen(rng)
+    made = 0
+    while made < n:
+      g.next_id = 1
+      g.no_obj = rng.chance(0.4)
+      g.deletes = False
+      e = g.tree(rng.randint(2, 3), rng.choice(['dict', 'list', None]), 0.6)
+      enodes = [(p_, n_) for p_, n_ in all_nodes(e) if p_]
+      if not enodes:
+        continue
+      epath, enode = rng.choice(enodes)
+      for _, x in all_nodes(enode):
+        x['sub'] = False          # a copy of a subscribing Dict / List would share the callback of the original
+      t = g.tree(rng.randint(1, 2), None, rng.choice([0.6, 1.0]))
+      shadows = {'tree': json.loads(json.dumps(t)), 'ext': json.loads(json.dumps(e))}
+      steps = []
+      for _ in range(rng.randint(1, 3)):
+        path, node = rng.choice(all_nodes(shadows['tree']))
+        val = lambda: {'from_ext': epath}
+        n_ = len(node['items'])
+        if node['k'] == 'list':
+          opts = [{'name': 'append', 'v': val()}, {'name': 'insert', 'i': rng.randint(0, n_), 'v': val()},
+                  {'name': 'extend', 'via': rng.choice(['extend', 'iadd']), 'vs': [val(), g.value()]},
+                  {'name': 'rebind', 'pairs': [[[n_], val()]]},
+                  {'name': 'setslice', 'a': 0, 'b': 0, 'step': None, 'vs': [val()]}]
+          if n_:
+            i = rng.below(n_)
+            opts += [{'name': 'setkey', 'key': i, 'v': val()}, {'name': 'rebind', 'pairs': [[[i], val()]]}]
+        elif node['k'] == 'dict':
+          k = rng.choice(DKEYS)
+          opts = [{'name': 'setkey', 'key': k, 'v': val()}, {'name': 'rebind', 'pairs': [[[k], val()]]},
+                  {'name': 'update', 'kvs': [[k, val()]]}]
+        else:
+          k = rng.choice(FIELDS)
+          opts = [{'name': 'setkey', 'key': k, 'v': val()}, {'name': 'rebind', 'pairs': [[[k], val()]]}]
+        step = {'recv': path, 'notify': rng.chance(0.9), 'call': rng.choice(opts)}
+        steps.append(step)
+        mirror(shadows['tree'], literal(json.loads(json.dumps(step)), e))
+      made += 1
+      yield {'tree': t, 'ext': e, 'steps': steps, 'forest': True}
+
   def model_request(self, case):
     if case.get('facts_only'):
       return None
     steps = []
-    for s_ in case['steps']:
+    for s_ in (literal(case['steps'], case['ext']) if case.get('forest') else case['steps']):
       if 'scope' in s_:
         steps.append(s_)
         continue
@@ -1945,7 +2017,7 @@ class C09(Prop):
         continue
       which = 'ext' if step.get('in') == 'ext' else 'tree'
       st = stacks.get(ti, [])
-      eff = dict(step, notify=bool(step['notify']) and (st[-1] if st else True))
+      eff = literal(dict(step, notify=bool(step['notify']) and (st[-1] if st else True)), case['ext'])
       name = step['call']['name']
       if o['other'] != o['pre_other']:
         return {'signature': 'changed-other-tree:' + name,
